@@ -71,8 +71,8 @@ impl Prop for C17 {
     }
     fn budget(&self, tier: Tier) -> u64 {
         match tier {
-            Tier::Quick => 100_000,
-            Tier::Thorough => 4_000_000,
+            Tier::Quick => 400_000,
+            Tier::Thorough => 8_000_000,
         }
     }
     fn required_labels(&self) -> Vec<&'static str> {
